@@ -2,7 +2,7 @@
 //
 //  H  hand-model correspondence (exact, every case must agree):
 //       DepthToZ (d, zmin, zmax)  ==  long (0.5 * (Zp + 1) * zdiff) + zmin   with Zp = c16_depthToZp (hand transcript, extracted to Lean)
-//       ZToDepth (z, zmin, zmax)  ==  normalizedZToDepth ((T (z') - T (zmin)) / T (int (zmax - zmin)))   (z' = wrapped z)
+//       ZToDepth (z, zmin, zmax)  ==  normalizedZToDepth ((T (z') - T (zmin)) / T (zdiff)) with z', zdiff from the Lean model (mode zmodel)
 //       planes (p, M) at double   ==  c16_planesM (hand transcript) bit for bit;   at float: to rounding (scale computed in double)
 //  R  residue (measured, NOT proof; bounds calibrated on the clean tree, seeds 1-3):
 //       corners -> cube corners, matrix depth vs normalizedZToDepth, ZToDepth/DepthToZ round trip within +-1 of the long
@@ -142,26 +142,20 @@ template <class T> static void corners (const Fr& F)
 template <class T> static void depth (const Fr& F)
 {
     Frustum<T> fr = mk<T> (F);
-    static const long zmaxs[] = {255, 65535, 16777215, 2147483647L, 1000};
+    static const long zmaxs[] = {255, 65535, 16777215, 2147483647L, 1000, 4294967295L};
     L eps = std::numeric_limits<T>::epsilon ();
     L n = fr.nearPlane (), f = fr.farPlane ();
     L kappa = (std::fabs (f) + std::fabs (n)) / std::fabs (f - n);
-    for (int k = 0; k < 5; ++k)
+    for (int k = 0; k < 6; ++k)
     {
         long zmax = zmaxs[k], zmin = (k == 4) ? -1000 : 0;
         long zdiffL = zmax - zmin;
         for (int j = 0; j < 6; ++j)
         {
             long z = j == 0 ? zmin : j == 1 ? zmax : zmin + (long) (U (0, 1) * (double) zdiffL);
-            // H: ZToDepth
-            int  zdiff = zmax - zmin;
-            long zw    = z;
-            if (zw > zmax + 1) zw -= zdiff;
-            T fz     = (T (zw) - T (zmin)) / T (zdiff);
-            T dReal  = fr.ZToDepth (z, zmin, zmax);
-            T dModel = fr.normalizedZToDepth (fz);
-            ++hits["H:ZToDepth"];
-            if (!sameBits (dReal, dModel)) fail (std::string ("H:ZToDepth:") + tn<T> (), show (fr) + " z=" + std::to_string (z));
+            // (ZToDepth itself is tied by the `zmodel` mode: Lean machine-integer model + independent expectation, also for z > zmax + 1
+            //  and for ranges that do not fit an int)
+            T dReal = fr.ZToDepth (z, zmin, zmax);
             // H: DepthToZ
             if (dReal == dReal && dReal != T (0))
             {
@@ -249,6 +243,12 @@ template <class T> static void planesM (const Fr& F, int k)
             L kap = 1 + (L) trScale / ((L) s * size) + (F.ortho ? 0 : (L) std::fabs (F.f / F.n) * 0);
             record ("H:planesM_float_vs_transcript_normal/(eps*kT)", (double) (e / (eps * kap)));
             if (!(e <= 32 * eps * kap)) fail ("H:planesM:float:plane" + std::to_string (i), show (fr));
+            // … and the distance (relative to the size of the quantities it is computed from)
+            L extD = std::max ({(L) std::fabs (F.l), (L) std::fabs (F.r), (L) std::fabs (F.t), (L) std::fabs (F.b), (L) std::fabs (F.n)});
+            L dsc  = std::fabs ((L) model[i].distance) + (L) trScale + (L) s * ((L) std::fabs (F.f) + extD * (F.ortho ? 1 : std::max ((L) 1, (L) std::fabs (F.f / F.n))));
+            L ed   = std::fabs ((L) real[i].distance - (L) model[i].distance) / dsc;
+            record ("H:planesM_float_vs_transcript_distance/(eps*kT*scale)", (double) (ed / (eps * kap)));
+            if (!(ed <= 32 * eps * kap)) fail ("H:planesM:float:distance:plane" + std::to_string (i), show (fr));
         }
     }
     // R: expected = analytic planes (p), mapped by the actual M (extended precision): n' = normalize (n A^-T), d' = n' . (p0 * M)
@@ -308,20 +308,36 @@ template <class T> static void planesM (const Fr& F, int k)
             if (!(std::max (e, e2) <= 64 * eps * kapW)) fail (std::string ("planes_identity:") + tn<T> () + ":plane" + std::to_string (i), show (fr));
         }
     }
-    // mirrored camera matrix (det < 0): measured limitation, not judged — the normals of planes (p, M) then point INWARDS
-    if (k % 7 == 0)
+    // mirrored camera matrix (det < 0).  PROVED (Props/C16Cull.lean planesM_*_mirrored, isVisiblePoint_*_mirrored): every plane equation of
+    // planes (p, M) changes sign -- all six normals point INTO the frustum -- and FrustumTest::isVisible (point) is false for every point.
+    // Judged here as model-vs-real agreement (the property's camera matrices are read as orientation preserving: explicit exclusion).
+    if (F.n < F.f)
     {
-        Matrix44<T> Mm = rigid<T> (1.0, 0.0, true, true);
+        Matrix44<T> Mm = rigid<T> (k % 2 ? 1.0 : std::ldexp (1.0, I (-2, 2)), k % 2 ? 0.0 : (double) size, k % 4 < 2, true);
         Plane3<T>   pm[6];
         fr.planes (pm, Mm);
-        // the centre of the frustum, mapped, should be inside (eval < 0) for outward normals
+        // the centre of the frustum, mapped: strictly inside the frustum, hence (model) strictly on the POSITIVE side of all six planes
         L zc = -(L) (F.n + F.f) / 2, xs = F.ortho ? 1 : -zc / (L) F.n;
         Vec3<T> c ((T) ((F.l + F.r) / 2 * xs), (T) ((F.b + F.t) / 2 * xs), (T) zc);
         Vec3<T> w = c * Mm;
         int inward = 0;
         for (int i = 0; i < 6; ++i) if (pm[i].distanceTo (w) > 0) ++inward;
-        ++hits["info:mirrored_M_cases"];
-        if (inward == 6) ++hits["info:mirrored_M_all_six_normals_inward"];
+        FrustumTest<T> ftm (fr, Mm);
+        bool vis = ftm.isVisible (w);
+        ++hits[std::string ("mirrored_M:") + tn<T> ()];
+        // the centre is at relative distance >= (f-n)/(2(f+n)) … from near/far: skip frusta whose centre is within rounding of a plane
+        L extM = std::max ({(L) std::fabs (F.l), (L) std::fabs (F.r), (L) std::fabs (F.t), (L) std::fabs (F.b), (L) std::fabs (F.n)});
+        L condM = (1 + extM / size) * (F.ortho ? (1 + (L) std::fabs (F.f) / size) * (((L) F.f + (L) F.n) / ((L) F.f - (L) F.n)) : 1);
+        if ((F.f - F.n) / (F.f + F.n) > 1e-2 && 1024 * eps * condM < 1)
+        {
+            ++hits[std::string ("mirrored_M:judged:") + tn<T> ()];
+            if (inward != 6 || vis)
+            {
+                char d[120];
+                snprintf (d, 120, " mirrored M: %d of 6 normals inward (model: 6), isVisible(centre)=%d (model: 0)", inward, (int) vis);
+                fail (std::string ("mirroredM:model-mismatch:") + tn<T> (), show (fr) + d);
+            }
+        }
     }
 }
 
@@ -333,7 +349,7 @@ template <class T> struct Cull
     FrustumTest<T> ft;
     PL             pl[6];
     L              s, tr[3], Rm[3][3], margin;
-    bool           ortho;
+    bool           ortho, rot = false;
     // camera-space preimage of a world point (M = s P + tr with P a signed permutation: exact inverse)
     void pre (L wx, L wy, L wz, L q[3]) const
     {
@@ -411,6 +427,7 @@ template <class T> static void cullCase (Cull<T>& C, int plane, int kase, const 
         if (dmax > -rc + margin) { ++judged; ++hits[std::string ("cull:sphere:poking-out:") + tn<T> ()]; if (con) { snprintf (inb, 300, " centre=(%.9g %.9g %.9g) r=%.9g dmax=%.3Lg: completelyContains TRUE for a sphere with a point outside", (double) cw.x, (double) cw.y, (double) cw.z, (double) rw, dmax); fail (std::string ("cull:sphere:contains-false-positive:") + (C.ortho ? "ortho:" : "persp:") + tn<T> () + ":" + pk, frs + inb); } }
         if (dmax < -rc - margin) { ++judged; if (!con) { snprintf (inb, 300, " centre=(%.9g %.9g %.9g) r=%.9g dmax=%.3Lg: completelyContains false for a sphere well inside", (double) cw.x, (double) cw.y, (double) cw.z, (double) rw, dmax); fail (std::string ("cull:sphere:contains-false-negative:") + (C.ortho ? "ortho:" : "persp:") + tn<T> () + ":" + pk, frs + inb); } }
         if (!judged) ++hits[std::string ("cull:sphere:ambiguous:") + tn<T> ()];
+        else if (C.rot) ++hits[std::string ("cull:camera:rotated:judged-spheres:") + tn<T> ()];
     }
     // ---- box: world axis-aligned cube of half extent s*rho/2 around the centre (camera-space image is axis aligned too)
     {
@@ -440,6 +457,7 @@ template <class T> static void cullCase (Cull<T>& C, int plane, int kase, const 
         if (pokes) { ++judged; ++hits[std::string ("cull:box:poking-out:") + tn<T> ()]; if (con) fail (std::string ("cull:box:contains-false-positive:") + (C.ortho ? "ortho:" : "persp:") + tn<T> () + ":" + pk, frs + inb + " (a corner is outside)"); }
         if (allIn) { ++judged; if (!con) fail (std::string ("cull:box:contains-false-negative:") + (C.ortho ? "ortho:" : "persp:") + tn<T> () + ":" + pk, frs + inb + " (all corners well inside)"); }
         if (!judged) ++hits[std::string ("cull:box:ambiguous:") + tn<T> ()];
+        else if (C.rot) ++hits[std::string ("cull:camera:rotated:judged-boxes:") + tn<T> ()];
     }
 }
 
@@ -452,12 +470,26 @@ template <class T> static void culling (const Fr& F0, int k)
     C.fr    = mk<T> (F);
     C.ortho = F.ortho;
     double s  = std::ldexp (1.0, I (-3, 3));
-    C.M       = rigid<T> (s, s * std::ldexp (1.0, (int) std::floor (std::log2 (F.n))), true);
+    // 2 of 3 cameras: signed permutation x power-of-two scale (exact inverse); 1 of 3: a general rotation (the world box is then NOT a
+    // camera-space box: all three components of the orthographic normals are non-zero in world space)
+    bool aa   = (k % 3 != 2);
+    C.rot     = !aa;
+    if (!aa && F.f > 8 * F.n) { F.f = 8 * F.n; C.fr = mk<T> (F); }
+    C.M       = rigid<T> (s, s * std::ldexp (1.0, (int) std::floor (std::log2 (F.n))), aa);
+    ++hits[std::string (aa ? "cull:camera:axis-aligned:" : "cull:camera:rotated:") + tn<T> ()];
     C.s       = s;
     for (int i = 0; i < 3; ++i) { C.tr[i] = C.M[3][i]; for (int j = 0; j < 3; ++j) C.Rm[i][j] = (L) C.M[i][j] / s; }
     C.ft = FrustumTest<T> (C.fr, C.M);
     exactPlanes (C.fr, C.pl);
     C.margin = (getenv ("C16_MARGIN_SCALE") ? (L) atof (getenv ("C16_MARGIN_SCALE")) : 1) * (sizeof (T) == 4 ? 4e-6L : 1e-13L) * (1 + (std::fabs ((L) C.tr[0]) + std::fabs ((L) C.tr[1]) + std::fabs ((L) C.tr[2])) / (s * std::fabs ((L) F.n)));
+    if (!aa)
+    {
+        // a rotated camera: planes (p, M) is computed from rotated corner points, its rounding error grows with the window offset and
+        // (orthographic: side planes from one near and two far corners) with far / window
+        L size = std::min ({(L) std::fabs (F.n), (L) std::fabs (F.r - F.l), (L) std::fabs (F.t - F.b)});
+        L ext  = std::max ({(L) std::fabs (F.l), (L) std::fabs (F.r), (L) std::fabs (F.t), (L) std::fabs (F.b), (L) std::fabs (F.n)});
+        C.margin *= 4 * (1 + ext / size) * (F.ortho ? (1 + (L) std::fabs (F.f) / size) : 1);
+    }
     std::string frs = show (C.fr) + " M=[";
     char b[64];
     for (int i = 0; i < 4; ++i) for (int j = 0; j < 3; ++j) { snprintf (b, 64, "%.9g ", (double) C.M[i][j]); frs += b; }
@@ -486,7 +518,7 @@ struct FrX : Frustum<double>
     using Frustum<double>::screenToLocal;
     using Frustum<double>::localToScreen;
 };
-static void specOne (const Fr& F, int k)
+static void specOne (const Fr& F, int k, bool projOnly = false)
 {
     Frustum<double> fr = mk<double> (F);
     FrX             fx (fr);
@@ -582,7 +614,25 @@ static void specOne (const Fr& F, int k)
               fr.orthographic () == F.ortho && !fr.degenerate () && Frustum<double> (n, n, l, r, t, b).degenerate () &&
               Frustum<double> (n, f, l, l, t, b).degenerate () && Frustum<double> (n, f, l, r, t, t).degenerate ()))
             sfail ("ctor", fs + " constructor / set / accessors / degenerate");
+        // operator=, copy constructor, ==, != (each field separately), hither / yon, default constructor
+        Frustum<double> h (9, 8, 7, 6, 5, 4, !F.ortho), c2 (fr), dflt;
+        h = fr;
+        bool okc = h.nearPlane () == n && h.farPlane () == f && h.left () == l && h.right () == r && h.top () == t && h.bottom () == b &&
+                   h.orthographic () == F.ortho && c2.nearPlane () == n && c2.farPlane () == f && c2.left () == l && c2.right () == r &&
+                   c2.top () == t && c2.bottom () == b && c2.orthographic () == F.ortho && fr.hither () == n && fr.yon () == f && h == fr && !(h != fr) &&
+                   dflt.nearPlane () == 0.1 && dflt.farPlane () == 1000 && dflt.left () == -1 && dflt.right () == 1 && dflt.top () == 1 &&
+                   dflt.bottom () == -1 && !dflt.orthographic ();
+        for (int q = 0; q < 7; ++q)
+        {
+            Frustum<double> d (n + (q == 0), f + (q == 1), l + (q == 2), r + (q == 3), t + (q == 4), b + (q == 5), q == 6 ? !F.ortho : F.ortho);
+            if (d == fr || !(d != fr)) okc = false;
+        }
+        ++specEvals;
+        if (!okc) sfail ("ctor", fs + " operator= / copy constructor / == / != / hither / yon / default constructor");
     }
+    // inverted windows (l > r, b > t) and negative near / far: only the projection half of the property is stated for them
+    // (corner theorems need `≠` only); the planes / culling half needs l < r, b < t, 0 < n (< f)
+    if (projOnly) return;
     // fov / aspect / set (fov, aspect)
     {
         double fov = I (1, 6) / 4.0, asp = I (2, 8) / 4.0, nn = n;
@@ -667,6 +717,8 @@ static void specOne (const Fr& F, int k)
     {
         Matrix44<double>    Id;
         FrustumTest<double> ft (fr, Id);
+        ++specEvals;
+        if (!(ft.currentFrustum () == fr && ft.cameraMat () == Id)) sfail ("frustumtest", fs + " setFrustum does not store the frustum / camera matrix");
         double cx = (l + r) / 2, cy = (b + t) / 2, cz = -(n + f) / 2, rho = std::min ({r - l, t - b, f - n}) / 8;
         struct Face { double x, y, z, nx, ny, nz; } faces[6] = {{cx, t, cz, 0, 1, 0}, {r, cy, cz, 1, 0, 0}, {cx, b, cz, 0, -1, 0}, {l, cy, cz, -1, 0, 0}, {cx, cy, -n, 0, 0, 1}, {cx, cy, -f, 0, 0, -1}};
         for (int i = 0; i < 6; ++i)
@@ -706,8 +758,159 @@ static int specMain (unsigned long seed)
         F.ortho = (k / 4) % 2 == 1;
         specOne (F, k);
     }
+    for (int k = 0; k < 24; ++k)
+    {
+        // inverted / mirrored frusta: l > r, b > t, negative near and far (k % 3 == 2)
+        Fr F;
+        F.n = std::ldexp (1.0, I (-2, 3));
+        F.f = F.n * (double[]){2, 4, 8, 16}[k % 4];
+        F.l = I (-12, 4) / 4.0 * F.n; F.r = F.l + I (1, 12) / 4.0 * F.n;
+        F.b = I (-12, 4) / 4.0 * F.n; F.t = F.b + I (1, 12) / 4.0 * F.n;
+        if (k % 3 != 1) std::swap (F.l, F.r);
+        if (k % 3 != 0) std::swap (F.b, F.t);
+        if (k % 3 == 2) { F.n = -F.n; F.f = -F.f; }
+        F.ortho = (k / 4) % 2 == 1;
+        specOne (F, k, true);
+    }
     printf ("C16SPEC evals=%ld failures=%ld\n", specEvals, specFails);
     return specFails ? 1 : 0;
+}
+
+// ------------------------------------------------------------------ Z. integer depth mapping vs the Lean machine-integer model
+// usage: c16_corr zmodel <seed> <argsfile>
+// <argsfile> is WRITTEN BY THE LEAN MODEL (Model/FrustumZ.lean, evaluated by tools/props/c16.py): one line per case
+//     z zmin zmax zvalWrapped zdiff(ZToDepth) zdiff(DepthToZ)
+// H (exact): ZToDepth (z, zmin, zmax) == normalizedZToDepth ((T (zvalWrapped) - T (zmin)) / T (zdiff)), bit for bit, where the two
+//     integers come from Lean, not from a copy of the C++ prologue;  DepthToZ's operand x = 0.5 * (Zp + 1) * zdiffLong is printed
+//     (`ZT` lines, hex) together with the real result so that the check can run the Lean tail `long (x) + zmin` on it.
+// S (independent expectation, written from the meaning of a z-buffer value, long double, `long` width throughout):
+//     ZToDepth (z) = depth of normalised value (z' - zmin) / (zmax - zmin),  z' = z for z <= zmax + 1, else z - (zmax - zmin);
+//     perspective depth of normalised value u: -2 f n / ((f + n) - (2 u - 1) (f - n));  orthographic: -(n + u (f - n)).
+//     Failure keys: ZToDepth:zrange-lt-2^31 / ZToDepth:zrange-ge-2^31 (width of zmax - zmin), ZToDepth:wrap for z > zmax + 1.
+static long zFails = 0, zEvals = 0, zJudged = 0, zWideJudged = 0, zWrapJudged = 0, zTail = 0;
+static std::map<std::string, int> zKeys;
+static void zfail (const std::string& key, const std::string& detail)
+{
+    ++zFails;
+    if (++zKeys[key] <= 3) printf ("C16Z-FAIL %s %s\n", key.c_str (), detail.c_str ());
+}
+struct ZCase { long z, zmin, zmax, zw, zdInt, zdLong; };
+template <class T> static void zmodelOne (const Fr& F, const std::vector<ZCase>& cases)
+{
+    Frustum<T> fr = mk<T> (F);
+    L eps = std::numeric_limits<T>::epsilon ();
+    L n = fr.nearPlane (), f = fr.farPlane ();
+    for (const ZCase& c : cases)
+    {
+        T dReal = fr.ZToDepth (c.z, c.zmin, c.zmax);
+        T fz    = (T (c.zw) - T (c.zmin)) / T (c.zdInt);
+        T dLean = fr.normalizedZToDepth (fz);
+        ++zEvals;
+        char buf[400];
+        if (!sameBits (dReal, dLean))
+        {
+            snprintf (buf, 400, " ZToDepth(%ld, %ld, %ld) = %.17g but the Lean model's integers (zval' = %ld, zdiff = %ld) give %.17g", c.z, c.zmin, c.zmax,
+                      (double) dReal, c.zw, c.zdInt, (double) dLean);
+            zfail (std::string ("H:zmodel:ZToDepth:") + tn<T> (), show (fr) + buf);
+        }
+        // independent expectation
+        {
+            __int128 width = (__int128) c.zmax - (__int128) c.zmin;
+            bool     wide  = width >= ((__int128) 1 << 31), wrap = (__int128) c.z > (__int128) c.zmax + 1;
+            __int128 zeff  = wrap ? (__int128) c.z - width : (__int128) c.z;
+            L u = (L) (zeff - (__int128) c.zmin) / (L) width, Zp = 2 * u - 1, expect, kappa;
+            if (F.ortho) { expect = -(n + u * (f - n)); kappa = (std::fabs (Zp * (f - n)) + std::fabs (f + n)) / std::fabs (2 * expect); }
+            else { L den = (f + n) - Zp * (f - n); expect = -2 * f * n / den; kappa = (std::fabs (Zp * (f - n)) + std::fabs (f) + std::fabs (n)) / std::fabs (den); }
+            L tol = 64 * eps * (1 + kappa);
+            if (width > 0 && std::isfinite ((double) expect) && expect != 0 && tol < 0.25L)
+            {
+                ++zJudged; if (wide) ++zWideJudged; if (wrap) ++zWrapJudged;
+                L err = std::fabs ((L) dReal - expect) / std::fabs (expect);
+                if (!wide && !wrap) record (std::string ("ZToDepth_vs_expected/(eps*(1+kappa)):") + tn<T> (), (double) (err / (eps * (1 + kappa))));
+                if (!(err <= tol))
+                {
+                    snprintf (buf, 400, " ZToDepth(%ld, %ld, %ld) = %.17g, expected %.17Lg (normalised value %.17Lg of the range; zmax - zmin = %s 2^31)", c.z, c.zmin, c.zmax,
+                              (double) dReal, expect, u, wide ? ">=" : "<");
+                    zfail (std::string ("ZToDepth:") + (wide ? "zrange-ge-2^31" : wrap ? "wrap" : "zrange-lt-2^31"), show (fr) + buf);
+                }
+            }
+        }
+        // DepthToZ: operand of the cast (transcript Zp, proved = the real body's by depthToZp_*_real_body), for the Lean tail
+        T depths[4] = {dReal, T (-0.5 * F.n), T (-2.0 * F.f), T (-(F.n + F.f) / 2)};
+        for (int j = 0; j < 4; ++j)
+        {
+            T d = depths[j];
+            if (!(d == d) || d == T (0)) continue;
+            T      Zp = c16_depthToZp (fr, d);
+            double x  = 0.5 * (Zp + 1) * c.zdLong;
+            if (!(std::fabs (x) < 4e18)) continue;
+            long zReal = fr.DepthToZ (d, c.zmin, c.zmax);
+            ++zTail;
+            printf ("ZT %s %a %ld %ld\n", tn<T> (), x, c.zmin, zReal);
+        }
+    }
+}
+static int zmodelMain (unsigned long seed, const char* path)
+{
+    std::vector<ZCase> cases;
+    FILE* fp = fopen (path, "r");
+    if (!fp) { printf ("C16Z cannot open %s\n", path); return 2; }
+    ZCase c;
+    while (fscanf (fp, "%ld %ld %ld %ld %ld %ld", &c.z, &c.zmin, &c.zmax, &c.zw, &c.zdInt, &c.zdLong) == 6) cases.push_back (c);
+    fclose (fp);
+    rng.seed (seed * 40503ul + 77);
+    for (int k = 0; k < 16; ++k)
+    {
+        Fr F = genFrustum (k);
+        if (k < 4) { F.n = 1; F.f = (double[]){2, 3, 1000, 17}[k]; F.l = -1; F.r = 1; F.b = -1; F.t = 1; F.ortho = k % 2; }
+        zmodelOne<float> (F, cases);
+        zmodelOne<double> (F, cases);
+    }
+    printf ("C16Z cases=%zu evals=%ld judged=%ld wide_judged=%ld wrap_judged=%ld tails=%ld failures=%ld\n", cases.size (), zEvals, zJudged, zWideJudged, zWrapJudged, zTail, zFails);
+    for (auto& kv : zKeys) printf ("C16ZKEY %s %d\n", kv.first.c_str (), kv.second);
+    for (auto& kv : worst) printf ("C16MAX %s %.4g\n", kv.first.c_str (), kv.second);
+    return zFails ? 1 : 0;
+}
+
+// ------------------------------------------------------------------ L. FrustumTest on an exact lattice, for the Lean-text-vs-real-code comparison
+// usage: c16_corr ftlattice <seed>
+// Orthographic unit-cube frustum (n 1, f 2, window [0,1]^2), cameras = signed permutation + dyadic translation (every cross product of
+// planes (p, M) has length exactly 1, every number is dyadic): the REAL FrustumTest<double> is exact here, so the generated Lean
+// definitions (Gen/C16Test.lean calling Gen/C16PlanesM.lean), EVALUATED at Rat with sqrt := id by tools/props/c16.py, must give the same
+// answers.  This validates the emitted Lean TEXT of the entries that translator validation at Rat skips (they call opaque functions).
+static void hexv (double v) { printf (" %a", v); }
+static int ftLatticeMain (unsigned long seed)
+{
+    rng.seed (seed * 9176ul + 3);
+    Frustum<double> fr (1, 2, 0, 1, 1, 0, true);
+    for (int c = 0; c < 6; ++c)
+    {
+        Matrix44<double> M = c == 0 ? Matrix44<double> () : rigid<double> (1.0, 1.0, true);
+        FrustumTest<double> ft (fr, M);
+        printf ("FTL-CAM");
+        for (int i = 0; i < 4; ++i) for (int j = 0; j < 4; ++j) hexv (M[i][j]);
+        printf ("\n");
+        for (int k = 0; k < 24; ++k)
+        {
+            // camera-space lattice point around and inside the cube, mapped to world space (exact)
+            bool inside = k % 2 == 0; // half of the objects centred inside the cube and small, half around it and large
+            Vec3<double> q = inside ? Vec3<double> (I (1, 7) / 8.0, I (1, 7) / 8.0, -(1 + I (1, 7) / 8.0))
+                                    : Vec3<double> (I (-2, 6) / 4.0, I (-2, 6) / 4.0, -(I (2, 10) / 4.0));
+            Vec3<double> w = q * M;
+            double rad = inside ? (double[]){0.0625, 0.125, 0.25, 0.0}[(k / 2) % 4] : (double[]){0.25, 0.5, 1.0, 0.0}[(k / 2) % 4];
+            double hs  = inside ? 16.0 : 4.0;
+            Vec3<double> h (I (0, 4) / hs, I (0, 4) / hs, I (0, 4) / hs);
+            Sphere3<double> sp (w, rad);
+            Box<Vec3<double>> bx (w - h, w + h);
+            if (k == 23) bx = Box<Vec3<double>> (w + Vec3<double> (1, 0, 0), w); // empty box
+            printf ("FTL-OBJ");
+            hexv (w.x); hexv (w.y); hexv (w.z); hexv (rad);
+            hexv (bx.min.x); hexv (bx.min.y); hexv (bx.min.z); hexv (bx.max.x); hexv (bx.max.y); hexv (bx.max.z);
+            printf (" %d %d %d %d %d\n", (int) ft.isVisible (w), (int) ft.isVisible (sp), (int) ft.isVisible (bx), (int) ft.completelyContains (sp),
+                    (int) ft.completelyContains (bx));
+        }
+    }
+    return 0;
 }
 
 // formerly failing input (finding planesM:float:far-plane-normal-overflow, fixed by /repo 16a5ca8): far/near = 1e6 with a window of
@@ -732,6 +935,8 @@ static void overflowProbe ()
 int main (int argc, char** argv)
 {
     if (argc > 1 && !strcmp (argv[1], "spec")) return specMain (argc > 2 ? strtoul (argv[2], 0, 10) : 1);
+    if (argc > 1 && !strcmp (argv[1], "ftlattice")) return ftLatticeMain (argc > 2 ? strtoul (argv[2], 0, 10) : 1);
+    if (argc > 3 && !strcmp (argv[1], "zmodel")) return zmodelMain (strtoul (argv[2], 0, 10), argv[3]);
     unsigned long seed = argc > 1 ? strtoul (argv[1], 0, 10) : 1;
     int           n    = argc > 2 ? atoi (argv[2]) : 200;
     rng.seed (seed * 2654435761ul + 16);
@@ -747,7 +952,8 @@ int main (int argc, char** argv)
     }
     overflowProbe ();
     long evals = 0;
-    for (auto& kv : hits) if (kv.first.find ("ambiguous") == std::string::npos && kv.first.find ("info:") != 0 && kv.first.find ("touching") == std::string::npos && kv.first.find ("poking") == std::string::npos && kv.first.find ("within_1") == std::string::npos) evals += kv.second;
+    for (auto& kv : hits) if (kv.first.find ("ambiguous") == std::string::npos && kv.first.find ("info:") != 0 && kv.first.find ("touching") == std::string::npos && kv.first.find ("poking") == std::string::npos && kv.first.find ("within_1") == std::string::npos && kv.first.find ("cull:camera") != 0 &&
+                              !(kv.first.find ("mirrored_M:") == 0 && kv.first.find ("judged") == std::string::npos)) evals += kv.second;
     printf ("C16CORR evals=%ld failures=%ld\n", evals, failures);
     for (auto& kv : hits) printf ("C16HIT %s %ld\n", kv.first.c_str (), kv.second);
     for (auto& kv : worst) printf ("C16MAX %s %.4g\n", kv.first.c_str (), kv.second);
